@@ -38,11 +38,17 @@ class RichDB(mm.GenDB):
         if self.with_dv:
             # element variables, a top-level $d, an axiom with its own $d in a nested block
             tc = self.elvar_typecode = rng.choice(('#ElementVariable', '#ElementVariable', 'setvar'))
-            st[0] = ('c', st[0][1] + [tc, '\\forall'])
-            st.insert(2, ('v', ['x', 'y']))
-            st.append(('f', 'x-is-elvar', tc, 'x'))
-            st.append(('f', 'y-is-elvar', tc, 'y'))
-            st.append(('d', ['x', 'y']))
+            st[0] = ('c', st[0][1] + [tc, '\\forall', '\\neq'])
+            st.insert(2, ('v', ['x', 'y', 'z', 'a', 'b']))
+            evs = ['x', 'y', 'z', 'a', 'b']
+            rng.shuffle(evs)
+            for v_ in evs:
+                st.append(('f', f'{v_}-is-elvar', tc, v_))
+            # one $d statement over three variables: every pair is disjoint, adjacent in the statement or not
+            d3 = ['x', 'y', 'z']
+            rng.shuffle(d3)
+            st.append(('d', d3))
+            st.append(('block', [('d', ['a', 'b']), ('a', 'ax-distinct', ['|-', '(', '\\neq', 'a', 'b', ')'])]))
             st.append(('a', 'forall-is-pattern', ['#Pattern', '(', '\\forall', 'x', self.vars[0], ')']))
             st.append(('block', [('d', ['x', self.vars[0]]),
                                  ('block', [('e', 'gen.0', ['|-', self.vars[0]]),
@@ -72,6 +78,15 @@ class RichDB(mm.GenDB):
                 goal = concl
                 hyps = [('e', f'{lab}.0', ['|-'] + mm.term_toks(H))]
             elif self.with_dv and rng.random() < 0.3:
+                # |- ( \neq X Z ) from ax-distinct: needs $d X Z in the lemma's frame (given by the three-variable $d)
+                X, Z = rng.sample(['x', 'y', 'z'], 2)
+                pb = mm.ProofBuilder(self, v)
+                steps = pb.assertion_steps('ax-distinct', {'a': X, 'b': Z}, [])
+                goal = ('\\neq', X, Z)
+                order = [s_[3] for s_ in st if s_[0] == 'f']
+                mand = [f'{u}-is-elvar' for u in order if u in (X, Z)]
+                hyps = []
+            elif self.with_dv and rng.random() < 0.3:
                 # generalisation over x of a closed theorem (the $d of `gen` is satisfied trivially)
                 A, pa = mm.gen_tree(rng, self, rng.randint(1, 2), [])
                 pb = mm.ProofBuilder(self, v)
@@ -85,7 +100,7 @@ class RichDB(mm.GenDB):
                 used = [x for x in mm.term_toks(goal) if x in self.vars]
                 mand = [f'{x}-is-pattern' for x in self.float_order if x in used]
                 hyps = []
-            is_gen = goal[0] == '\\forall' if isinstance(goal, tuple) else False
+            is_gen = goal[0] in ('\\forall', '\\neq') if isinstance(goal, tuple) else False
             arity = {l: (0 if e[0] in ('f', 'e') else len(e[2]) + len(e[3])) for l, e in v.labels.items()}
             arity[f'{lab}.0'] = 0
             proof = (mm.compress_with_reuse(rng, steps, arity, mand) if rng.random() < 0.6 else mm.compress(steps, mand))[0]
